@@ -74,7 +74,30 @@ pub async fn run_case(case: &Case, rec: &Rec) -> Value {
     for step in &case.steps {
         if let Some(sql) = step.get("sql").and_then(|s| s.as_str()) {
             match &db {
-                Some(d) => res.push(db::run_stmt(d, sql).await),
+                Some(d) => {
+                    let mut r = db::run_stmt(d, sql).await;
+                    if step.get("stypes").and_then(|b| b.as_bool()).unwrap_or(false) {
+                        r["stypes"] = db::static_types(d, sql);
+                    }
+                    if let Some(p) = step.get("plans").and_then(|b| b.as_array()) {
+                        // each entry: {"disk": bool, "mock": {"t1": n, ...}}
+                        let mut v = vec![];
+                        for cfg in p {
+                            let disk_like = cfg["disk"].as_bool().unwrap_or(false);
+                            let mock: Vec<(String, u32)> = cfg["mock"]
+                                .as_object()
+                                .map(|m| {
+                                    m.iter()
+                                        .map(|(k, n)| (k.clone(), n.as_u64().unwrap_or(0) as u32))
+                                        .collect()
+                                })
+                                .unwrap_or_default();
+                            v.push(db::plans(d, sql, disk_like, &mock));
+                        }
+                        r["plans"] = json!(v);
+                    }
+                    res.push(r)
+                }
                 None => res.push(json!({"ok": false, "err": "database not open", "closed": true})),
             }
             continue;
